@@ -2,6 +2,7 @@ package rules
 
 import (
 	"fmt"
+	"go/token"
 	"go/types"
 
 	"golang.org/x/tools/go/ssa"
@@ -62,7 +63,12 @@ func runERRPAIR(c *Ctx) {
 				}
 			}
 			for _, v := range vals {
-				stores, edges := heapStoresOf(v)
+				var safeAt func(ssa.Instruction) bool
+				if errV != nil {
+					ev := errV
+					safeAt = func(i ssa.Instruction) bool { return errKnownNil(i, ev) }
+				}
+				stores, edges := heapStoresOf(v, safeAt)
 				for _, st := range stores {
 					what := fmt.Sprintf("result of %s stored to %s", calleeLabel(c, ci), ir.Sym(st.Addr))
 					pos := P.InstrPos(st)
@@ -108,7 +114,7 @@ func errNilByFlow(st ssa.Instruction, errV ssa.Value) bool {
 // edges[st] lists, for a store reached through φ nodes, the ends of the predecessor blocks through which v itself
 // flows into the merge: where the error was tested inside the arm (`l, err := split(); if err != nil { return }`
 // in one arm, the store after the arms meet), it is at those points that it is known to be nil.
-func heapStoresOf(v ssa.Value) (out []*ssa.Store, edges map[*ssa.Store][]ssa.Instruction) {
+func heapStoresOf(v ssa.Value, safeAt func(ssa.Instruction) bool) (out []*ssa.Store, edges map[*ssa.Store][]ssa.Instruction) {
 	edges = map[*ssa.Store][]ssa.Instruction{}
 	seen := map[ssa.Value]bool{}
 	var walk func(x ssa.Value, d int, via []ssa.Instruction)
@@ -123,6 +129,43 @@ func heapStoresOf(v ssa.Value) (out []*ssa.Store, edges map[*ssa.Store][]ssa.Ins
 				if y.Val == x && !localAddr(y.Addr) {
 					out = append(out, y)
 					edges[y] = via
+				} else if y.Val == x && !(safeAt != nil && safeAt(y)) {
+					// (a local variable written where the error is already known to be nil needs no following)
+					// the value goes into a local composite (pathEntry{node: node}, the varargs array of an append):
+					// what is made of that composite carries it on
+					root := y.Addr
+					for i := 0; i < 8; i++ {
+						switch a := root.(type) {
+						case *ssa.FieldAddr:
+							root = a.X
+							continue
+						case *ssa.IndexAddr:
+							root = a.X
+							continue
+						}
+						break
+					}
+					if al, ok := root.(*ssa.Alloc); ok && al.Referrers() != nil {
+						for _, r2 := range *al.Referrers() {
+							switch z := r2.(type) {
+							case *ssa.Slice:
+								walk(z, d+1, via)
+							case *ssa.UnOp:
+								if z.Op == token.MUL {
+									walk(z, d+1, via)
+								}
+							}
+						}
+					}
+				}
+			case *ssa.Call:
+				// append(S, …composite…): the grown slice holds the value
+				if b, ok := y.Call.Value.(*ssa.Builtin); ok && b.Name() == "append" {
+					for ai, a := range y.Call.Args {
+						if ai > 0 && a == x {
+							walk(y, d+1, via)
+						}
+					}
 				}
 			case *ssa.MakeInterface:
 				walk(y, d+1, via)
